@@ -27,10 +27,12 @@
 (* take-profit, either absolute (declared with the entry) or, with RelExits, placed*)
 (* in on_open_position at a distance from the price the strategy sees there.       *)
 (*                                                                              *)
-(* Known defect class of the tree (C12 finding "inner-gap-fill", InnerFix = FALSE): *)
-(* a fill in a minute inside a chunk whose raw open differs from the previous close;*)
-(* TLC exhibits it as a counter-example to Equiv, EquivKnown sets it aside, and with*)
-(* InnerFix = TRUE (the proposed repair) Equiv holds without exception.            *)
+(* Former defects, kept as seedable variants (see SimCore.tla): InnerFix = FALSE    *)
+(* (C12 finding "inner-gap-fill", fixed by 651f7be3: a fill in a minute inside a    *)
+(* chunk whose raw open differs from the previous close) and PerMinute = FALSE (C02 *)
+(* findings, fixed by adf54ef1).  With the former inner loop TLC exhibits          *)
+(* counter-examples to Equiv (EquivKnown sets the inner-gap-fill class aside); for  *)
+(* the loop as it is now Equiv holds without exception.                            *)
 (*                                                                              *)
 (* Property (independent of the loops' shape), at every chunk end:                *)
 (*   if the normal run has had <= 1 resting (LIMIT/STOP) fill in every trading    *)
@@ -119,6 +121,8 @@ Equiv   == (pc = "compare" /\ pre = "ok") => SameOutcome
 \* the same, setting aside the one known defect class (C12 finding "inner-gap-fill", repaired by InnerFix): runs in which
 \* the fast simulator filled an order in a gapped minute inside a chunk.  With InnerFix = TRUE Equiv itself must hold.
 EquivKnown == (pc = "compare" /\ pre = "ok" /\ ~sf.gap) => SameOutcome
+\* stronger than the property (no antecedent at all): holds for the repaired fast loop, which is the normal loop minute by minute
+EquivAlways == pc = "compare" => SameOutcome
 NoErr   == sn.err = "none" /\ sf.err = "none"
 InPre   == pre = "ok"                     \* CONSTRAINT: runs outside the precondition are not extended
 \* ---- exports for the replay into the real simulators (INVARIANT position: evaluated once per distinct state; PrintT is TRUE)
